@@ -42,7 +42,7 @@ LEVEL = "exploration"
 
 FLAGS = ("dagger", "control", "power")
 POSITIONS = ("stmt", "if", "while", "ifexp", "arg")
-MIXES = ("q", "a", "qa")
+MIXES = ("q", "a", "qa", "gq", "ga", "gxs")   # g*: GENERIC callee (x: T) instantiated with a qubit / int / qubit array
 CONSTRUCTS = ("for", "while", "assign", "annassign", "augassign", "for_in_if",
               "assign_in_if", "subscript")
 
@@ -119,8 +119,9 @@ def wrap_context(ctx, body_lines, params):
 RET = {"stmt": ("None", "pass"), "if": ("bool", "return True"),
        "while": ("bool", "return True"), "ifexp": ("bool", "return True"),
        "arg": ("int", "return 1")}
-MIX_PARAMS = {"q": "q: qubit", "a": "a: int", "qa": "q: qubit, a: int"}
-MIX_ARGS = {"q": "q", "a": "a", "qa": "q, a"}
+MIX_PARAMS = {"q": "q: qubit", "a": "a: int", "qa": "q: qubit, a: int", "gq": "x: T", "ga": "x: T", "gxs": "x: T"}
+MIX_ARGS = {"q": "q", "a": "a", "qa": "q, a", "gq": "q", "ga": "a", "gxs": "qs2"}
+QUBIT_MIXES = ("q", "qa", "gq", "gxs")
 
 
 def place_call(position, call):
@@ -139,10 +140,11 @@ def place_call(position, call):
 def callee_src(kind, g, mix, position, name="callee", params=None):
     ret, body = RET[position]
     params = params or MIX_PARAMS[mix]
+    gen = "[T]" if mix.startswith("g") else ""
     if kind == "def":
-        return [deco("guppy", g), f"def {name}({params}) -> {ret}:", "    " + body]
+        return [deco("guppy", g), f"def {name}{gen}({params}) -> {ret}:", "    " + body]
     assert kind == "decl"
-    return [deco("guppy.declare", g), f"def {name}({params}) -> {ret}: ..."]
+    return [deco("guppy.declare", g), f"def {name}{gen}({params}) -> {ret}: ..."]
 
 
 SINK = ["@guppy", "def sink(a: int) -> None:", "    pass"]
@@ -168,7 +170,9 @@ def build(item):
         if position == "arg":
             pre += SINK
         body = place_call(position, f"callee({MIX_ARGS[item['mix']]})")
-        passes_qubit = "q" in item["mix"]
+        passes_qubit = item["mix"] in QUBIT_MIXES
+        if item["mix"] == "gxs":
+            params = MAIN_PARAMS + ", qs2: array[qubit, 2]"
         if position == "while":
             construct = "while"
     elif fam == "special":
@@ -223,7 +227,7 @@ def all_items(quick=False):
                             continue
                         items.append({"fam": "user", "ctx": ctx, "ckind": ckind,
                                       "g": list(g), "mix": mix, "position": pos})
-        for mix in MIXES:
+        for mix in ("q", "a", "qa"):
             items.append({"fam": "special", "ctx": ctx, "callee": "barrier", "mix": mix})
         items.append({"fam": "special", "ctx": ctx, "callee": "state_result", "mix": "q"})
         for cons in CONSTRUCTS:
@@ -423,7 +427,7 @@ def run(ctx):
                 ill.append(describe(it, f) + ": " + r["ill"])
         # non-trivial: a flagged context together with a call that passes a qubit, or a
         # dagger-forbidden construct (the cases in which the rules can fire at all)
-        if f["F"] and (f["construct"] or (it["fam"] != "construct" and "q" in it.get("mix", ""))):
+        if f["F"] and (f["construct"] or (it["fam"] != "construct" and it.get("mix", "") in QUBIT_MIXES)):
             nontrivial += 1
         for key, what in r["viol"]:
             ctx.violation(key, f"{describe(it, f)}: {what}", it)
